@@ -817,7 +817,7 @@ fn main() {
         Some("c26_empty_leaves_quick") => { let a = c26_empty_leaves(120, 1000); if a != 0 { a } else { c26_empty_leaves(900, 24) } }
         Some("c26_empty_leaves_thorough") => { let mut rc = 0; for (n, l) in [(120usize, 1000usize), (900, 24), (400, 300), (3000, 16), (60, 2500)] { if rc == 0 { rc = c26_empty_leaves(n, l); } } rc }
         Some("c26_mixed_sizes_quick") => c26_mixed_sizes(2, 1500),
-        Some("c26_mixed_sizes_thorough") => c26_mixed_sizes(25, 6000),
+        Some("c26_mixed_sizes_thorough") => c26_mixed_sizes(10, 4000),
         Some("c26_multimap_quick") => c26_multimap_sweep(3, 400),
         Some("c26_multimap_thorough") => c26_multimap_sweep(40, 1500),
         Some("c28_vacuum_after_compact") => c28_vacuum_after_compact(),
